@@ -308,7 +308,7 @@ _REAL_ALGS = {
         "ufl.algorithms.remove_component_tensors.remove_component_tensors"
     )(e),
     "apply_restrictions_default": lambda e: ops.resolve(
-        "ufl.algorithms.apply_restrictions.apply_default_restrictions"
+        "ufl.algorithms.apply_restrictions.apply_restrictions"
     )(e),
     "extract_coefficients": lambda e: ops.resolve("ufl.algorithms.analysis.extract_coefficients")(
         e
